@@ -10,42 +10,42 @@ Set Implicit Arguments.
 Section Proofs.
 Context {P : Type}.
 
-Lemma settle_worker_exec pol (s : st P) l : forall i s', settle_worker pol s l i = Some s' ->
+Lemma settle_worker_exec od pol (s : st P) l : forall i s', settle_worker od pol s l i = Some s' ->
   exists j, exec pol (LWorker j) s = Some s'.
 Proof.
   induction l as [|w r IH]; intros i s' H; cbn [settle_worker] in H; [discriminate|].
   destruct (rem w) as [|a q]; [eauto|].
-  destruct (w_unobs a); [|eauto].
+  destruct (w_unobs od a); [|eauto].
   destruct (exec pol (LWorker i) s) as [s1|] eqn:E; [|eauto].
   injection H as <-. eauto.
 Qed.
 
-Lemma settle1_exec pol (s s' : st P) : settle1 pol s = Some s' -> exists l, exec pol l s = Some s'.
+Lemma settle1_exec od pol (s s' : st P) : settle1 od pol s = Some s' -> exists l, exec pol l s = Some s'.
 Proof.
   unfold settle1. intros H.
-  assert (Hw : settle_worker pol s (ws s) 0 = Some s' -> exists l, exec pol l s = Some s').
-  { intros Hs. destruct (settle_worker_exec _ _ _ _ Hs) as [j Hj]. eauto. }
+  assert (Hw : settle_worker od pol s (ws s) 0 = Some s' -> exists l, exec pol l s = Some s').
+  { intros Hs. destruct (settle_worker_exec _ _ _ _ _ Hs) as [j Hj]. eauto. }
   destruct (mpc s) as [|a r]; [auto|].
   destruct (m_unobs a); [|auto].
   destruct (exec pol LMain s) as [s1|] eqn:E; [|auto].
   injection H as <-. eauto.
 Qed.
 
-Lemma settle_run pol fuel : forall (s : st P), exists tr, run pol tr s = Some (settle pol fuel s).
+Lemma settle_run od pol fuel : forall (s : st P), exists tr, run pol tr s = Some (settle od pol fuel s).
 Proof.
   induction fuel as [|f IH]; intros s; cbn [settle].
   - exists []. reflexivity.
-  - destruct (settle1 pol s) as [s1|] eqn:E; [|exists []; reflexivity].
-    destruct (settle1_exec _ _ E) as [l Hl]. destruct (IH s1) as [tr Htr].
+  - destruct (settle1 od pol s) as [s1|] eqn:E; [|exists []; reflexivity].
+    destruct (settle1_exec _ _ _ E) as [l Hl]. destruct (IH s1) as [tr Htr].
     exists (l :: tr). cbn [run]. rewrite Hl. exact Htr.
 Qed.
 
-Theorem accepts_sound pol evs : forall pos (s : st P) b, accepts pol evs pos s = Accepted b ->
+Theorem accepts_sound od pol evs : forall pos (s : st P) b, accepts od pol evs pos s = Accepted b ->
   exists tr s', run pol tr s = Some s' /\ final_b s' = b.
 Proof.
   induction evs as [|e r IH]; intros pos s b H; cbn [accepts] in H;
-    destruct (settle_run pol (measure s) s) as [tr0 H0];
-    set (s1 := settle pol (measure s) s) in *.
+    destruct (settle_run od pol (measure s) s) as [tr0 H0];
+    set (s1 := settle od pol (measure s) s) in *.
   - injection H as <-. eauto.
   - destruct e as [e|i e].
     + destruct (mpc s1) as [|a q]; [discriminate|].
